@@ -129,7 +129,7 @@ theorem rel_init : Rel {} (fun _ => []) := by
   have : (({} : Topics).ensure T) = ({} : Topic) := rfl
   rw [this]; exact ⟨TInv_empty, List.Perm.refl _⟩
 
-private theorem rel_upd (s : Topics) (c : String → List ES) (h : Rel s c) (T id : String) (level : Nat)
+theorem rel_upd (s : Topics) (c : String → List ES) (h : Rel s c) (T id : String) (level : Nat)
     (time : Int) (t' : Topic)
     (ht' : t'.sorted = ((s.ensure T).updateEvent { id := id, level := level, time := time }).1.sorted) :
     Rel (s.set T t') (fun T' => if T == T' then upsert (c T') { id := id, level := level, time := time } else c T') := by
@@ -149,7 +149,7 @@ private theorem rel_upd (s : Topics) (c : String → List ES) (h : Rel s c) (T i
     simp only [this, Bool.false_eq_true, ↓reduceIte]
     exact h T'
 
-private theorem rel_same_sorted (s : Topics) (c : String → List ES) (h : Rel s c) (T : String) (t' : Topic)
+theorem rel_same_sorted (s : Topics) (c : String → List ES) (h : Rel s c) (T : String) (t' : Topic)
     (ht' : t'.sorted = (s.ensure T).sorted) : Rel (s.set T t') c := by
   intro T'
   by_cases e : T' = T
@@ -160,8 +160,17 @@ private theorem rel_same_sorted (s : Topics) (c : String → List ES) (h : Rel s
     rw [ht']; exact ⟨hi, hp⟩
   · rw [ensure_set_other _ _ _ _ e]; exact h T'
 
-private theorem rel_closed (s : Topics) (c : String → List ES) (cl : List (String × List Ev)) (h : Rel s c) :
+theorem rel_closed (s : Topics) (c : String → List ES) (cl : List (String × List Ev)) (h : Rel s c) :
     Rel { s with closed := cl } c := fun T => h T
+
+theorem rel_removeHandler (s : Topics) (c : String → List ES) (T hid : String) (h : Rel s c) :
+    Rel (s.removeHandler T hid) c := by
+  unfold Topics.removeHandler
+  have hr := rel_same_sorted s c h T { (s.ensure T) with handlers := (removeSwap hid (s.ensure T).handlers).1 } rfl
+  simp only
+  split
+  · exact rel_closed _ _ _ hr
+  · exact hr
 
 theorem ensure_of_get {s : Topics} {T : String} {t : Topic} (h : s.get T = some t) : s.ensure T = t := by
   unfold Topics.ensure; rw [h]; rfl
@@ -177,25 +186,16 @@ theorem rel_step (s : Topics) (c : String → List ES) (op : Op) (hwf : op.wf = 
     simpa [step, stepWith, curStep] using this
   | reg T hid =>
     have := rel_same_sorted s c h T _ (addHandler_sorted (s.ensure T) hid)
-    simpa [step, stepWith, curStep] using this
+    simpa [step, stepWith, curStep, Topics.addHandler] using this
   | dereg T hid =>
     simp only [step, stepWith, curStep]
     split
     · exact h
-    · rename_i t hg
-      have hr := rel_same_sorted s c h T { t with handlers := (removeSwap hid t.handlers).1 }
-        (by rw [ensure_of_get hg])
-      split
-      · exact rel_closed _ _ _ hr
-      · exact hr
+    · exact rel_removeHandler s c T hid h
   | replace T old new =>
     simp only [step, stepWith, curStep]
-    have hr := rel_same_sorted s c h T
-      (({ (s.ensure T) with handlers := (removeSwap old (s.ensure T).handlers).1 } : Topic).addHandler new)
-      (by rw [addHandler_sorted])
-    split
-    · exact rel_closed _ _ _ hr
-    · exact hr
+    have h1 := rel_removeHandler s c T old h
+    exact rel_same_sorted _ c h1 T _ (addHandler_sorted _ new)
   | deltopic T =>
     simp only [step, stepWith, curStep]
     split
